@@ -9,11 +9,11 @@ import (
 	"github.com/jig/lisp/env"
 	"github.com/jig/lisp/types"
 
+	"github.com/jig/lisp/zverif/vcore"
 	"verifharness/internal/explore"
 	"verifharness/internal/lx"
 	"verifharness/internal/model"
 	"verifharness/internal/vf"
-	"github.com/jig/lisp/zverif/vcore"
 )
 
 type c11prog struct {
@@ -40,7 +40,9 @@ var c11Progs = []c11prog{
 	{"assoc-shared-map", false, func(i int) string { return fmt.Sprintf("(get (assoc sharedmap :k%d %d) :a)", i, i) }},
 	{"def-inside-called-thunk", false, func(i int) string { return fmt.Sprintf("((fn [] (def tmp %d) (list tmp tmp)))", i) }},
 	{"def-inside-future-body", true, func(i int) string { return fmt.Sprintf("(deref (future (def tmpf %d) (list tmpf tmpf)))", i) }},
-	{"cond-and-or", true, func(i int) string { return fmt.Sprintf("(list (cond false 1 (= %d %d) %d) (and 1 %d) (or nil %d))", i, i, i, i, i) }},
+	{"cond-and-or", true, func(i int) string {
+		return fmt.Sprintf("(list (cond false 1 (= %d %d) %d) (and 1 %d) (or nil %d))", i, i, i, i, i)
+	}},
 	{"memoize", true, func(i int) string {
 		return fmt.Sprintf("(do (def m-%d (memoize (fn [x] (+ x %d)))) (list (m-%d 1) (m-%d 1)))", i, i, i, i)
 	}},
@@ -177,11 +179,11 @@ func init() {
 			return sc, solo
 		}
 		fam := &vf.Family{
-			Name:    "program-sets",
-			Bounds:  fmt.Sprintf("all unordered pairs over %d programs (local scopes, closures, catch variables, own globals, reads of a shared vector/map through conj/concat/splice/assoc, reading another evaluation's global, library macros with gensym, memoize, a future) and all triples of the %d light ones, on one shared scope over the preloaded libraries; all interleavings at env/atom lock operations and hook points with partial-order reduction (private objects, never-write-locked read locks); preemption bound: light pairs 3, heavy pairs and triples 2 (quick); light pairs 4, others 3 (thorough, plus an unreduced cross-check of light pairs at bound 1)", len(c11Progs), 11),
-			Setup:   setup,
-			Timeout: 1200 * time.Second,
-			N:       func(t string) int64 { tier = t; return int64(len(plansOf())) },
+			Name:     "program-sets",
+			Bounds:   fmt.Sprintf("all unordered pairs over %d programs (local scopes, closures, catch variables, own globals, reads of a shared vector/map through conj/concat/splice/assoc, reading another evaluation's global, library macros with gensym, memoize, a future) and all triples of the %d light ones, on one shared scope over the preloaded libraries; all interleavings at env/atom lock operations and hook points with partial-order reduction (private objects, never-write-locked read locks); preemption bound: light pairs 3, heavy pairs and triples 2 (quick); light pairs 4, others 3 (thorough, plus an unreduced cross-check of light pairs at bound 1)", len(c11Progs), 11),
+			Setup:    setup,
+			Timeout:  1200 * time.Second,
+			N:        func(t string) int64 { tier = t; return int64(len(plansOf())) },
 			Describe: func(i int64) string { return planStr(plansOf()[i]) },
 			Run: func(i int64, r *vf.Rec) {
 				p := plansOf()[i]
@@ -239,10 +241,10 @@ func init() {
 		}
 		return &vf.Check{
 			RacePass: c11RacePass,
-			ID: "C11", Level: "model_checking",
-			Rule: "every set of programs is run concurrently on one shared scope under the controlled scheduler (env and atom locks modelled, hook points of futures), exploring every interleaving up to the preemption bound with a sound partial-order reduction; each evaluation's result must equal its solo result (a global being defined by another evaluation reads as unbound or as the complete value) and no execution may deadlock; non-trivial = scenario with a context switch inside an evaluation",
+			ID:       "C11", Level: "model_checking",
+			Rule:        "every set of programs is run concurrently on one shared scope under the controlled scheduler (env and atom locks modelled, hook points of futures), exploring every interleaving up to the preemption bound with a sound partial-order reduction; each evaluation's result must equal its solo result (a global being defined by another evaluation reads as unbound or as the complete value) and no execution may deadlock; non-trivial = scenario with a context switch inside an evaluation",
 			Assumptions: []string{"data races between scheduling points are the race pass's job", "results are compared, not macro expansions (gensym numbering differs legitimately)"},
-			Families: []*vf.Family{fam},
+			Families:    []*vf.Family{fam},
 		}
 	})
 }
